@@ -4,7 +4,7 @@ from __future__ import annotations
 import ast
 
 from ..cfg import CFG, Node, eval_order, iter_own
-from ..loader import AnalysisError, ClassInfo, FuncInfo, dotted, walk_own
+from ..loader import exc_expr, AnalysisError, ClassInfo, FuncInfo, dotted, walk_own
 from .c11 import SignalAnchors
 from .common import Anchors, call_name, is_const, names_in, self_attr
 from .tables import enclosing_loops, expand_alias
@@ -232,7 +232,7 @@ def run(ctx) -> None:
 
     # ------------------------------------------------------------------ R1 (a) miss -> raise in Context.get_resource
     reads = [n for n in bcfg.live_nodes() if bcfg.own_ast(n) is not None and any(isinstance(e, ast.Attribute) and e.attr in (an.resource_table, an.factory_table) and isinstance(e.ctx, ast.Load) for e in iter_own(bcfg.own_ast(n)))]
-    nf = [n for n in bcfg.live_nodes() if n.kind == "stmt" and isinstance(n.ast, ast.Raise) and n.ast.exc is not None and "ResourceNotFound" in ast.unparse(n.ast.exc)]
+    nf = [n for n in bcfg.live_nodes() if n.kind == "stmt" and isinstance(n.ast, ast.Raise) and n.ast.exc is not None and "ResourceNotFound" in ast.unparse(exc_expr(n.ast))]
     if not reads or not nf:
         rep.unrecognised("C06.R1", base, base.node, "Context.get_resource has no table read / no raise ResourceNotFound")
     else:
